@@ -59,6 +59,31 @@ add("C07", "property-based testing with a rigorous per-bin Cauchy-Schwarz bound 
     "CUDA via simulator with small plans (cost ~1 s per analysis); bounded N (6e3 quick / 6e4 thorough).",
     "DESIGN.md section 6 C07")
 
+add("C08", "metamorphic property-based testing (add a polynomial trend) + differential against a least-squares-detrend reference DFT; 3 backends",
+    "Adding a polynomial of degree <= order to either channel must leave XX, YY, XY, M2 unchanged within the rounding budget at the scale of the trend, for full and "
+    "single-bin analyses on all backends; the trended analysis must equal the reference estimator with an order-p least-squares detrend, so a degree p+1 trend (or any "
+    "offset at order -1) changes the estimate exactly as the definition says.",
+    "Invariance is relative to the size of the added trend (as the property states); CUDA through the simulator on small plans.",
+    "DESIGN.md section 6 C08")
+add("C09", "property-based testing of algebraic identities and metamorphic channel swap / channel removal",
+    "Bounds (0<=coh<=1, Cauchy-Schwarz), coherence 1 for single-segment bins and linearly dependent channels, swap symmetry, auto-density alone vs in a pair, "
+    "GyyCx+GyyRx=Gyy and GyySx=Gyy(1-coh) are asserted bin by bin on generated two-channel analyses whose relation kinds include complex-valued partial coherence "
+    "(quota) and degenerate channels (zero, constant, identical).",
+    "Tolerances: 1e-9 relative for identities that involve cancellation, rounding budget for kernel-level differences.",
+    "DESIGN.md section 6 C09")
+add("C10", "property-based testing against textbook formulas on synthetic results spanning the whole (g2, n, magnitude) domain + fixed-seed Monte-Carlo grid",
+    "All deviation/error attributes are compared (rtol 1e-12) with the Bendat-Piersol expressions typed from the property text on results constructed through the "
+    "public SpectrumResult constructor (g2 down to 1e-12 and up to exactly 1, n from 1 to 1e6) and on real analyses; scaling with n, the phase/magnitude error "
+    "ordering and limits are checked; a 12-cell Monte-Carlo grid compares predicted and observed scatter.",
+    "The statistical clause cannot see a formula error below ~15% of the predicted scatter; the deterministic part is exact.",
+    "DESIGN.md section 6 C10")
+add("C11", "property-based differential testing against per-segment reference DFT products + fixed-seed statistical grid",
+    "XY_emp_var, XY_emp_dev, Gxx/Gxy_emp_dev and XY_M2 are recomputed from the per-segment cross products of the reference DFT on the reported segmentation "
+    "(population variance / K, zero for K=1, non-negative, unit conversion 2/(fs*sum w^2)); for white Gaussian records with 4000 independent segments the empirical "
+    "and analytic deviations must agree within 15%.",
+    "Statistical clause: fixed-seed ensembles, ~6 sigma tolerance.",
+    "DESIGN.md section 6 C11")
+
 MANIFEST = {
     "version": 1,
     "setup_cmd": "/venv/bin/python -m harness.setup",
